@@ -60,6 +60,23 @@ def Fn.Eqv (a b : Fn) : Prop :=
 _inspect.py:7-29), so the answer is the plain function's -/
 def specOf (env : Nat → Sig) (fn : Fn) : Sig := env fn.base
 
+/-- `kwargs.pop('axis', 0)` -/
+def popAxis (kw : PDict) : PDict := kw.filter fun p => p.1 != "axis"
+
+/-- the call `loops.wrapped` forwards when the looped argument is not a container (_loop.py:190-240):
+    * a first positional argument: `_wrapped(args[0], args[1:], kwargs)` pops `axis` and calls
+      `function(arg, *args, **kwargs)`;
+    * no positional argument but a keyword named like the first parameter `top`: `arg = kwargs.pop(top)`, then the same;
+    * neither: `function(*args, **kwargs)` unchanged. -/
+def loopsCall (s : Sig) (c : Call) : Call :=
+  match c.args, s.params with
+  | _ :: _, _ => { c with kw := popAxis c.kw }
+  | [], top :: _ =>
+    match c.kw.lookup top with
+    | some arg => { args := [arg], kw := popAxis (c.kw.erase top) }
+    | Option.none => c
+  | [], [] => c
+
 /-- one call of a decorated function.  `s`, `body`: signature and body of the plain function. -/
 def evalChain (s : Sig) (body : PDict → Res Val) : List (Cls × PDict) → Call → Res Val
   | [], c => applyFn s body c
@@ -74,7 +91,7 @@ def evalChain (s : Sig) (body : PDict → Res Val) : List (Cls × PDict) → Cal
       | .error _ => .ok (firstArg s c)
   | (.kwargsSupport, _) :: rest, c => evalChain s body rest (kwFilter s c)
   | (.cache, _) :: rest, c => evalChain s body rest c      -- first call on an empty cache
-  | (.loops, _) :: rest, c => evalChain s body rest c      -- first argument is not a container
+  | (.loops, _) :: rest, c => evalChain s body rest (loopsCall s c)      -- first argument is not a container
   | (.pd2np, _) :: rest, c => evalChain s body rest c      -- no pandas argument
 
 end Pyg
